@@ -120,4 +120,12 @@ CLAIMED.update({
   "note": "H-sig for the signature facts (premise). The delivery guarantee against Byzantine relays holds for the gossiper-list mechanism only; the handler as written is refuted by flash poisoning.", "design_ref": "6 C12",
  },
 })
+CLAIMED.update({
+ "C15": {
+  "engine": "rpch+extraction",
+  "technique": "Coq: handlers as programs over message shapes (every length, every presence pattern, every dependency outcome); a static analysis proved sound (safe_sound, quiet_sound) accepts all 17 handlers => no panic for any shape, clean rejections; kernel-checked counterexample for Confirm/Reject (known finding); exhaustive shape-class enumeration on the real handlers vs the extracted model",
+  "text": "C15_analysis_sound + C15_no_handler_panics: none of the notary, gossip and webhook handlers nor the peer-vertex ingress can panic, for all field lengths, sub-message presence patterns and dependency outcomes (the only crash primitives of these handlers are the fixed-size conversions and sub-message dereferences, which the guards added by fix 61edbd9 dominate). C15_rejected_request_mutates_nothing for 15 handlers; C15_confirm_reject_refuted (KNOWN-FINDING). The harness enumerates the full product of shape classes x dependency outcomes (~2.2e5 cases) on the real handler objects under recover() and compares outcome and mutation list with the model on every case.",
+  "note": "The handler programs are hand-transcribed (order of guards, conversions, dependency calls); the exhaustive differential run is what ties them to the code. Dependencies are stubs: crashes inside the real ledger / verifier are covered by C09 / C04 / the createleaf-panic finding.", "design_ref": "6 C15",
+ },
+})
 NOT_YET = {}
